@@ -107,9 +107,56 @@ def b_where(c):
     cond = data(tuple(c["s3"]), 0.0, 1.0, 3) > 0.5
     a = data(tuple(c["s"]), 0.3, 2.7, 0)
     b = data(tuple(c["s2"]), 0.4, 1.9, 5)
+    if c["argnum"] == 0:
+        # the condition itself is the differentiated argument: a float array, non-zero everywhere (so NumPy's value is locally constant)
+        cf = onp.where(cond, 1.0, -1.0) * data(tuple(c["s3"]), 0.5, 1.5, 7)
+        if onp.ndim(cf) == 0:
+            cf = as_arg(cf, "pyfloat" if c["id"] % 2 == 0 else "zerod")
+        return (lambda cc: np.where(cc, a, b)), cf, {}
     if c["argnum"] == 1:
         return (lambda x: np.where(cond, x, b)), a, {}
     return (lambda y: np.where(cond, a, y)), b, {}
+
+
+# ----------------------------------------------------------------------------- the extension API on arguments of different shapes
+def b_extend(c):
+    from autograd.extend import primitive, defvjp, defjvp
+    from autograd.numpy.numpy_vjps import unbroadcast
+    tbl, red, api = c["ia"], c["ib"], c["form"]
+    fl0, fl1 = tbl == 1, tbl == 2
+    sa, sb = tuple(c["s"]), tuple(c["s2"])
+    a = data(sa, 0.3, 2.7, 0)
+    b = data(sb, 0.4, 1.9, 5)
+    full = onp.broadcast(a, b).shape
+
+    def raw(u, v, shift=0.0):
+        uu = onp.floor(u) if fl0 else u
+        vv = onp.floor(v) if fl1 else v
+        r = uu * vv + shift
+        return onp.sum(r) if red else r
+    user = primitive(raw)
+    A = lambda u: np.floor(u) if fl0 else u
+    B = lambda v: np.floor(v) if fl1 else v
+    spread = lambda g: g + np.zeros(full)                     # the cotangent of the (possibly summed) output, at full shape
+    r0 = None if fl0 else (lambda ans, u, v, shift=0.0: lambda g: unbroadcast(spread(g) * B(v), np.metadata(u)))
+    r1 = None if fl1 else (lambda ans, u, v, shift=0.0: lambda g: unbroadcast(spread(g) * A(u), np.metadata(v)))
+    fin = (lambda t: np.sum(t)) if red else (lambda t: t)
+    j0 = None if fl0 else (lambda g, ans, u, v, shift=0.0: fin(g * B(v) + np.zeros(full)))
+    j1 = None if fl1 else (lambda g, ans, u, v, shift=0.0: fin(A(u) * g + np.zeros(full)))
+    if api == "defvjp":
+        defvjp(user, r0, r1)
+        defjvp(user, j0, j1)
+    else:
+        defvjp(user, r1, r0, argnums=(1, 0))
+        defjvp(user, j1, j0, argnums=(1, 0))
+    kw = {"shift": 0.25} if c["id"] % 2 else {}
+    if c["argnum"] == 0:
+        f, fn, x = (lambda u: user(u, b, **kw)), (lambda u: raw(u, b, **kw)), a
+    else:
+        f, fn, x = (lambda v: user(a, v, **kw)), (lambda v: raw(a, v, **kw)), b
+    if onp.ndim(x) == 0:
+        x = as_arg(x, "pyfloat" if c["id"] % 2 == 0 else "zerod")
+    return f, x, {"f_numpy": fn}
 
 
 # ----------------------------------------------------------------------------- reductions
@@ -519,6 +566,8 @@ def b_fft(c):
     if prim in ("fft", "ifft", "rfft", "irfft"):
         n = c["ia"] or None
         ax = axis_arg(c["ax"])
+        if c["form"] == "kw":
+            return (lambda v: getattr(ff, prim)(v, n=n, axis=ax, norm=norm)), x, {}
         return (lambda v: getattr(ff, prim)(v, n, ax, norm)), x, {}
     kw = {}
     if c["tp"]:
@@ -669,4 +718,4 @@ def b_helper(c):
     return f, x, {}
 
 
-BUILDERS = {"helper": b_helper, "argsweep": b_argsweep, "kink": b_kink, "linalg": b_linalg, "fft": b_fft, "index": b_index, "join": b_join, "contract": b_contract, "rearr": b_rearr, "binary": b_binary, "where": b_where, "reduce": b_reduce, "cum": b_cum, "unary": b_unary}
+BUILDERS = {"extend": b_extend, "helper": b_helper, "argsweep": b_argsweep, "kink": b_kink, "linalg": b_linalg, "fft": b_fft, "index": b_index, "join": b_join, "contract": b_contract, "rearr": b_rearr, "binary": b_binary, "where": b_where, "reduce": b_reduce, "cum": b_cum, "unary": b_unary}
